@@ -389,12 +389,14 @@ type Contract struct {
 	NoPanicProps []string
 	Trusted  bool // assume-contract
 	Opaque   bool // never inline even if no ensures
+	InlineAtCallers bool
 	Body     SExpr  // pred / pure body
 	ResultType string // pure
 	Closures []*Contract // contracts of func literals inside (Name = key)
 	ClosureKey string
 	ClosureOrd int
 	Replay   string
+	ReplayPkg string
 	File     string
 	Line     int
 	Induct   string // lemma: induction variable
@@ -668,8 +670,18 @@ func ReadContractFile(path, pkgPath string) ([]*Contract, error) {
 				tgt.Trusted = true
 			case "opaque":
 				tgt.Opaque = true
+			case "inline-at-callers":
+				// verified as its own unit, but callers execute its body (needed when the
+				// callee runs a function literal of the caller)
+				tgt.InlineAtCallers = true
 			case "replay":
 				tgt.Replay = rest
+			case "replay-in":
+				// replay-in <package path> <template>: the template is a test of another package
+				f := strings.Fields(rest)
+				if len(f) == 2 {
+					tgt.ReplayPkg, tgt.Replay = f[0], f[1]
+				}
 			case "witness":
 				j := strings.Index(rest, "=")
 				if j < 0 {
